@@ -60,6 +60,14 @@ def check(case):
     data = _data(case, p)
     pristine = [d.copy() for d in data]
     e = len(data)
+    if (p + sum(case["Ns"]) + len(case["calls"])) % 2 == 0:
+        # the caller built another network from the very same array objects earlier, when they held other values, and has
+        # since refilled them: the judged network is defined by what the arrays hold when it is constructed
+        for d in data:
+            d[...] = d[::-1] * 0.5 + 3.0
+        lib(DRFNet, graph, data)
+        for d, pr in zip(data, pristine):
+            d[...] = pr
     fk.reset_log()
     keepg = graph.copy()
     if case.get("verbose"):
@@ -99,7 +107,7 @@ def check(case):
         raise Violation("fit_missing", "no forest fitted for (node, env) %s; %s" % (missing[:4], ctx))
     if not np.array_equal(graph, keepg):
         raise Violation("input_modified", "DRFNet modified the graph; %s" % ctx)
-    lab = []
+    lab = ["arrays_used_before"] if (p + sum(case["Ns"]) + len(case["calls"])) % 2 == 0 else []
     if len(sources) >= 2:
         lab.append("two_sources")
     if any(len(x) >= 2 for x in pa):
